@@ -513,7 +513,13 @@ impl Machine {
         let p = self.machine_st.attr_var_init.verify_attrs_loc;
         step_or_resource_error!(
             self.machine_st,
-            self.machine_st.verify_attr_interrupt(p, arity)
+            self.machine_st.verify_attr_interrupt(p, arity),
+            {
+                // the error has been thrown: unwind to its handler instead of
+                // carrying on with the clause body.
+                self.machine_st.backtrack();
+                return;
+            }
         );
     }
 
